@@ -79,6 +79,9 @@ type Script struct {
 	// library that hands a message to its state machine synchronously behaves like this; it widens the window between the
 	// hand-over of a party's last message and whatever the orchestrator does after the hand-over.
 	LingerOnMsg time.Duration
+	// ConstantBroadcasts: the broadcast of a round has the same bytes whoever sends it (a constant announcement such as "READY"):
+	// sender and sequence number are left out of the payload. Attribution is then known from the transport only.
+	ConstantBroadcasts bool
 }
 
 func (s Script) transmits(pid uint16) bool { return s.Transmit == nil || s.Transmit[pid] }
@@ -171,6 +174,9 @@ func (b *Backend) OnMsg(m []byte, from uint16, bcast bool) {
 
 func (b *Backend) emit(p Payload, bcast bool, to uint16, filler int) {
 	p.Seq = atomic.AddUint32(&seqCounter, 1)
+	if bcast && b.Script.ConstantBroadcasts {
+		p.Seq, p.Sender = 0, 0
+	}
 	raw := Encode(p, filler)
 	b.mu.Lock()
 	b.Sent = append(b.Sent, SentRec{Payload: raw, Bcast: bcast, To: to})
